@@ -45,6 +45,7 @@ fixed("F21", "C15", "cold<0 C>.timeout(10): the timer armed after the last item 
 fixed("F22", "C15", "x.observe_on(new_thread) subscribed on behalf of an observer that had already ended: the scheduler thread was never aborted (introduced by the fix 'do not build teardown cycles', which stopped the late emission that used to trigger finalize; probe fails on the parent commit of this fix)", "regress/C15-observe_on-for-ended-observer-leaks-thread.json", "fix: an on_finalize action registered after")
 fixed("F23", "C15", "finalize racing new_observer (subscribe_on worker subscribing an interval while the downstream errors on another thread): the upstream stayed subscribed until its next item (the race is in the original tree; this probe's schedule reproduces it on the parent commit of the fix)", "regress/C15-finalize-vs-new_observer-race.json", "fix: an upstream registered while the stream is being finalized")
 fixed("F24", "C15", "timeout armed a timer while the stream was ending on another thread and never cancelled it", "regress/C15-timeout-arms-timer-while-finalizing.json", "fix: timeout cancels a timer it armed")
+fixed("F25", "C07", "group_by: emitting into the source from the callback that receives a new group self-deadlocked (group map write lock held across the downstream call)", "regress/C07-group_by-reentrant-emission-from-outer-callback.json", "fix: group_by announces a new group")
 import os, sys
 extra = os.path.join(os.path.dirname(__file__), 'known_extra.py')
 if os.path.exists(extra):
